@@ -12,7 +12,7 @@
     K <b> <e> <ranges> | <segs>
     X ...                                  (operation the harness could not execute: skipped)
   Output lines:
-    MISMATCH line=<n> case=<k> what=<observable> impl=<...> model=<...>
+    MISMATCH line=<n> case=<k> what=<observable> impl=<...> model=<...>      (segment lists are compared in canonical form)
     SPECFAIL line=<n> case=<k> clause=<name> t=<t> impl=<0|1> expected=<0|1> corr_ok=<0|1>
     BADLINE line=<n>
     STATS cases=.. updates=.. queries=.. ...
@@ -53,6 +53,7 @@ structure DSt where
   calSegs : Nat := 0
   calChecked : Nat := 0
   tzChecked : Nat := 0
+  reprDiffers : Nat := 0     -- updates where model and implementation store the same set as different lists
   strideDst : Nat := 0       -- calendar evaluations in which a stride > 1 is counted across a UTC-offset change
   noops : Nat := 0
   nonClear : Nat := 0
@@ -168,17 +169,20 @@ def handle (d : DSt) (n : Nat) (line : String) : IO DSt := do
         if threw then
           IO.println s!"MISMATCH line={n} case={d.caseNo} what=update-threw impl=exception model=none"
           bad := true
-        if m' != iobs then
-          IO.println s!"MISMATCH line={n} case={d.caseNo} what=region impl={showOpt ivb},{showOpt ive},{showSegs isegs} model={showOpt m'.vb},{showOpt m'.ve},{showSegs m'.segs}"
+        -- the covered set is compared, not its representation: canonical forms of both lists (+ the window)
+        if canon m'.segs != canon isegs || m'.vb != ivb || m'.ve != ive then
+          IO.println s!"MISMATCH line={n} case={d.caseNo} what=region impl={showOpt ivb},{showOpt ive},{showSegs (canon isegs)} model={showOpt m'.vb},{showOpt m'.ve},{showSegs (canon m'.segs)} witness={showOpt (firstDifference isegs m'.segs)}"
           bad := true
+        else if m'.segs != isegs then
+          d := { d with reprDiffers := d.reprDiffers + 1 }
         let mf : Option Int × Option Int := if noop then (none, none) else (some mb, some e)
         if mf != (ifb, ife) then
           IO.println s!"MISMATCH line={n} case={d.caseNo} what=update-args impl={showOpt ifb},{showOpt ife} model={showOpt mf.1},{showOpt mf.2}"
           bad := true
         match ownRet?, noop with
         | some o, false =>
-          if o != mown then
-            IO.println s!"MISMATCH line={n} case={d.caseNo} what=own-segments impl={showSegs o} model={showSegs mown}"
+          if canon o != canon mown then
+            IO.println s!"MISMATCH line={n} case={d.caseNo} what=own-segments impl={showSegs (canon o)} model={showSegs (canon mown)} witness={showOpt (firstDifference o mown)}"
             bad := true
         | _, _ => pure ()
         if bad then d := { d with mismatches := d.mismatches + 1, caseMismatch := true }
@@ -216,8 +220,9 @@ def handle (d : DSt) (n : Nat) (line : String) : IO DSt := do
                       sharedBoundary := d.sharedBoundary + (if okR then 0 else 1) }
         if (!o.incs.flatten.isEmpty || !o.excs.flatten.isEmpty || p.ranges.isSome) && isegs != iown then
           d := { d with caseNontrivial := true }
-        -- follow the implementation (resynchronise after a mismatch so that it is reported once)
-        return setP d { p with model := if bad then iobs else m', impl := iobs, last := some o }
+        -- always continue from the implementation's observed state: every step of the model is then compared on its
+        -- own, a harmless difference of representation cannot pile up, and a divergence is reported once
+        return setP d { p with model := iobs, impl := iobs, last := some o }
     | _, _, _, _, _, _, _, _, _, _ => IO.println s!"BADLINE line={n}"; return d
   | ["Q", id, ts, "|", bits] =>
     match id.toNat?, parseInts? ts with
@@ -264,8 +269,8 @@ def handle (d : DSt) (n : Nat) (line : String) : IO DSt := do
       if segs != "!" && i.isNone then IO.println s!"BADLINE line={n}"; return d
       for (k, _) in rg do
         d := { d with dayForms := bumpForm d.dayForms (dayFormName k) }
-      if m != i then
-        IO.println s!"MISMATCH line={n} case={d.caseNo} what=script-func impl={(i.map showSegs).getD "!"} model={(m.map showSegs).getD "!"}"
+      if m.map canon != i.map canon then
+        IO.println s!"MISMATCH line={n} case={d.caseNo} what=script-func impl={(i.map (showSegs ∘ canon)).getD "!"} model={(m.map (showSegs ∘ canon)).getD "!"}"
         d := { d with mismatches := d.mismatches + 1, caseMismatch := true }
       match i with
       | some o =>
@@ -286,4 +291,4 @@ def main : IO Unit := do
   let d ← foldLines stdin handle ({} : DSt)
   let d := closeCase d
   let forms := " ".intercalate (d.dayForms.map fun p => s!"form_{p.1}={p.2}")
-  IO.println s!"STATS cases={d.caseNo} updates={d.updates} queries={d.queries} scripts={d.scripts} cal_segments={d.calSegs} cal_checked={d.calChecked} tz_assumptions_checked={d.tzChecked} stride_across_offset_change={d.strideDst} noops={d.noops} non_clearing={d.nonClear} with_includes={d.withInc} with_excludes={d.withExc} cuts={d.splitN} shared_boundary_updates={d.sharedBoundary} inside_yes={d.insideYes} inside_no={d.insideNo} outside_window={d.outsideWindow} nontrivial={d.nontrivial} mismatches={d.mismatches} specfails={d.specfails} {forms}"
+  IO.println s!"STATS cases={d.caseNo} updates={d.updates} queries={d.queries} scripts={d.scripts} cal_segments={d.calSegs} cal_checked={d.calChecked} tz_assumptions_checked={d.tzChecked} stride_across_offset_change={d.strideDst} noops={d.noops} non_clearing={d.nonClear} with_includes={d.withInc} with_excludes={d.withExc} cuts={d.splitN} shared_boundary_updates={d.sharedBoundary} inside_yes={d.insideYes} inside_no={d.insideNo} outside_window={d.outsideWindow} nontrivial={d.nontrivial} repr_differs={d.reprDiffers} mismatches={d.mismatches} specfails={d.specfails} {forms}"
